@@ -28,8 +28,8 @@ def _coupling_push_guards(prog, fn):
         for bi, t, c in b.calls():
             if bi in b.reachable() and c and c.endswith('SmallVec::push') and t['args']:
                 l = op_local(t['args'][0])
-                names = {b.local_name.get(x) for x in b.derived_from(l)} | local_field_sources(b, l)
-                if 'coupling' not in names:
+                # the coupled-entry list: a SmallVec of &ResourceAllocRequest
+                if not any('smallvec::SmallVec<[&' in b.locals[x][0] and 'ResourceAllocRequest' in b.locals[x][0] for x in b.derived_from(l)):
                     continue
                 pv = variants_at(b, POOL, bi)
                 e, calls = guard_edges(b, AR + '::is_relevant_for_coupling', True)
@@ -61,9 +61,9 @@ def admission_equals_grant(ctx, rule):
     if c1 and c2:
         def arg_names(b, bi, i):
             l = op_local(b.term[bi]['args'][i])
-            return ({b.local_name.get(x) for x in b.derived_from(l)} | local_field_sources(b, l)) - {None}
-        # admission call on the current summary is the one whose result is compared (first call in CFG order that takes `free`)
-        cur1 = [bi for bi in c1 if 'free' in arg_names(b1, bi, 0)]
+            return local_field_sources(b, l) - {None}
+        # admission call on the current summary: its first argument derives from the `free` parameter (arg 2), not from static_info
+        cur1 = [bi for bi in c1 if 2 in b1.derived_from(op_local(b1.term[bi]['args'][0])) and 'all_resources' not in arg_names(b1, bi, 0)]
         ctx.ob(rule, 'admission|solver on current free summary', bool(cur1), 'the admission test runs the solver on the current free summary', b1.loc(cur1[0]) if cur1 else b1.loc())
         cur2 = [bi for bi in c2 if 'free_resources' in arg_names(b2, bi, 0)]
         ctx.ob(rule, 'grant|solver on current free summary', bool(cur2), 'the grant runs the solver on the current free summary', b2.loc(cur2[0]) if cur2 else b2.loc())
@@ -159,7 +159,7 @@ def run(ctx):
     aa = []
     for bi, t, c in b.calls():
         if bi in b.reachable() and (callee_decl(t) or '').endswith(('Iterator::all', 'Iterator::any')):
-            names = {b.local_name.get(x) for x in b.derived_from(op_local(t['args'][0]))}
+            names = {'coupling' for x in b.derived_from(op_local(t['args'][0])) if 'smallvec::SmallVec<[&' in b.locals[x][0] and 'ResourceAllocRequest' in b.locals[x][0]}
             cl = [norm(d[2]['rv'][1][1]) for a in t['args'][1:] if op_local(a) is not None for x in b.derived_from(op_local(a)) for d in b.defs().get(x, ())
                   if d[1] == 'a' and d[2]['rv'][0] == 'agg' and d[2]['rv'][1][0] == 'closure']
             if 'coupling' in names and any(prog.bodies[c_].call_blocks(AR + '::is_forced') for c_ in cl if c_ in prog.bodies):
